@@ -144,6 +144,18 @@ Round 4 seeded changes: r4m1 detected.  r4m2 (RemoveUnusedFunctionsPass keeps it
   reachable no other way").  The Coq model is stateless: the reused run must equal the fresh run.  r4m3
   (RemoveInitializersFromInputs compares NAMES model-wide): targeted template (f) = a Loop body's formal input named like an
   initializer owned by a sibling If branch.
+Deepening round: (1) RemoveUnusedOpsets is no longer frame-only: Opsets.v extends the term by the opset-import tables (model +
+  per function), models the pass (remove_unused_opsets: prune to {""} + function domains + domains of the recursively
+  reachable nodes) and proves C05_remove_unused_opsets_keeps_versions (term unchanged; every node of every scope, every function
+  domain and the default domain resolve to the same version; nothing added); the correspondence compares the tables in Coq
+  (opsets_agree); generator: unused imports at model / function level (same version per domain everywhere — the inliner
+  raises on a version mismatch), template (g) = custom domain used only inside a nested graph.  (2) The hypotheses of
+  C05_sequence are now EXECUTABLE (Proofs19, helper: extra_okb / invb / seq_okb with soundness, C05_sequence_checked) and are
+  evaluated in Coq on every step of a modelled pass (third list of every case file): evidence coverage.side_conditions counts
+  `holds:<pass>` / `OUTSIDE-HYPOTHESIS:<pass>` (only dce on BatchNormalization training_mode models so far = the known
+  finding's domain).  This covers the schema table of optional outputs (nofuncopb) and the defaults table (tblokb), both
+  read from onnx.defs per case.  NameFix / ClearMetadata / ShapeInference stay "term unchanged + annotation theorem".
+  Quick volume 40 -> 30 generated specs (CPU about 2 min).
 Wall time: quick ~60-110 s under load (40 specs x (22 single passes + 5 sequences) + corpus), thorough ~9-12 min (400 specs).
 """
 
@@ -1549,7 +1561,7 @@ def run(ck) -> None:
     # the principal theorem (C05_sequence over all thirteen modelled passes, InlinePass and RemoveUnusedFunctionsPass
     # included, + C05_frame_passes_preserve for the four annotation-only passes) is proved
     ck.level = "proof"
-    ck.notes.append("level_note: Coq theorems (26, all closed) for IdentityElimination, CSE (whole pass), DeduplicateInitializers (both), "
+    ck.notes.append("level_note: Coq theorems (28, all closed) for IdentityElimination, CSE (whole pass), DeduplicateInitializers (both), "
                     "RemoveUnusedNodes (incl. schema-driven output trimming; BatchNormalization training_mode excluded = known finding, "
                     "refuted in Coq), LiftConstantsToInitializers, OutputFix, LiftSubgraphInitializers, Add/RemoveInitializersFromInputs, "
                     "AddDefaultAttributes, TopologicalSort-as-reordering, RemoveUnusedFunctions, InlinePass, and any sequence of them "
@@ -1559,7 +1571,10 @@ def run(ck) -> None:
                     "drop_closedb / inline_certb / live_agreeb); a rejected certificate leaves the model unchanged in the Coq model and "
                     "would show up as a structural-correspondence mismatch with the implementation (none on the corpus and the generated "
                     "streams). Side conditions of the passes (fresh counters, locality of outputs, schema table) are hypotheses of "
-                    "C05_sequence, established per run by the converter (wfb/outputs_localb/noopfuncb evaluated in Coq on every step).")
+                    "C05_sequence; C05_sequence_checked states them as executable tests (invb, extra_okb) which the check evaluates in Coq on "
+                    "every step (coverage.side_conditions; outside only for dce on BatchNormalization training_mode). RemoveUnusedOpsets "
+                    "is modelled with the opset tables in the term (Opsets.v): C05_remove_unused_opsets_keeps_versions + table "
+                    "correspondence in Coq on every run.")
     generate(ck)
     ck.prove()
     # the case files also use the executable inliner model (C05/Inline.v, InlinePass.v): make sure the .vo are current
@@ -1572,7 +1587,7 @@ def run(ck) -> None:
     ccases = [(c["spec"], c["passes"], c.get("input_seed", 0)) for c in corpus]
     failures, mism = check_cases(ck, ccases, "corpus")
     # generated cases
-    n_specs, n_seq = (40, 5) if not ck.thorough else (400, 8)
+    n_specs, n_seq = (30, 5) if not ck.thorough else (360, 8)
     cases = gen_cases(ck.rng, n_specs, n_seq)
     f2, m2 = check_cases(ck, cases, "gen")
     failures += f2
